@@ -173,8 +173,24 @@ def translate():
 
     def cl_conflict():
         body = F.fn_body(pk, "set_content_length")
-        if not re.search(r"Length\(\s*(\w+)\s*\)\s*if\s*(?:\1\s*!=\s*\w+|\w+\s*!=\s*\1)\s*=>\s*false", body) and not re.search(r"\w+\s*!=\s*\w+", body):
-            raise F.Unreadable("no inequality test")
+        sig = re.search(r"\bfn\s+set_content_length\s*\(\s*\w+\s*:[^,]*,\s*(\w+)\s*:", pk)
+        if not sig:
+            raise F.Unreadable("the parameters are not recognised")
+        par = sig.group(1)
+        body = re.sub(r"debug_assert(?:_eq|_ne)?!\s*\(", "DBG(", body)
+        # drop the debug assertions (balanced), then every comparison of a bound length with the new one
+        while "DBG(" in body:
+            k = body.index("DBG(")
+            body = body[:k] + body[F.matching(body, k + 3, "(", ")") + 1:]
+        ops = [m.group(2) for m in re.finditer(r"\b(\w+)\s*(==|!=|<=|>=|<|>)\s*(\w+)\b", body) if par in (m.group(1), m.group(3))]
+        if not ops:
+            raise F.Unreadable("no comparison with the new length")
+        if ops != ["!="] and ops != ["=="]:
+            return "the new length is compared with %r" % ops
+        if ops == ["!="] and not re.search(r"if\s+\w+\s*!=\s*\w+\s*=>\s*false|!=\s*\w+\s*\{\s*return\s+false", body):
+            raise F.Unreadable("what a different length leads to is not recognised")
+        if ops == ["=="]:
+            raise F.Unreadable("what an equal length leads to is not recognised")
     _fact(fails, "pkawa.rs set_content_length", "a second, different length is refused", cl_conflict)
 
     def pseudo_rules():
@@ -327,6 +343,10 @@ def h2_case(rng, cid):
             n = rng.choice(NAMES)
         elif r < 0.88:
             n, v = "content-length", rng.choice(CL)
+            if rng.random() < 0.3:
+                # a second content-length, equal / smaller / larger / spelled differently (the ordered pairs are also in the corpus)
+                regs.append((n, v))
+                v = rng.choice(["0", "5", "05", "7", v, v])
         elif r < 0.94:
             n, v = "host", rng.choice(AUTHS + [auth, auth, auth + ":443", auth.split(":")[0]])
         else:
